@@ -385,6 +385,12 @@ impl LocalPeerService {
                 rooms.push(*room);
             }
             Self::cleanup(&lock_service, rooms).await;
+            //release the locks that were granted but not processed yet:
+            //closing the channel makes the lock service drop the pending requests of this peer
+            lock_receiver.close();
+            while let Some(room) = lock_receiver.recv().await {
+                lock_service.unlock(room).await;
+            }
             let key = remote_verifying_key.lock().await;
             peer_service
                 .disconnect(key.clone(), circuit_id, connection_info.conn_id)
